@@ -21,7 +21,7 @@ META = {
              "missing cells compared exactly, values within rounding. Non-trivial: the new common differs from the old "
              "one and the cube has >=2 non-empty cells; distinct by (content hash, encoding)"),
     "require": {t: ["enc:to_absent_value", "enc:to_empty_value_inside", "enc:to_frequent", "enc:renormalised",
-                    "agg:count", "agg:mean", "class:w=scalar", "class:ndims=3", "enc:in_place_on_a_used_cube"] for t in ("quick", "thorough")},
+                    "agg:count", "agg:mean", "class:w=scalar", "class:ndims=3", "enc:in_place_on_a_used_cube", "class:one_very_frequent_category"] for t in ("quick", "thorough")},
     "assumptions": ["every encoding uses the same explicit cube shape (extent+1 per dimension) so that outputs are comparable",
                     "re-encoding is done with the library's own shift_common; if its dense result differs from the original the re-encoding itself is reported (C06 reports the same defect at the operation)"],
 }
@@ -36,8 +36,14 @@ def shards(tier):
 def cases(ctx):
     rng = ctx.rng
     for i in range(ctx.shard["n"]):
-        c = gen.cube_case(rng, min_dims=1, max_dims=3, max_axes=2, max_extent=4, explicit_shape=False,
-                          allow_outside_common=True, n=gen.pick(rng, [1, 2, 3, 5, 8, 17, 40, 64, 150]))
+        if i % 25 == 7:
+            # one very frequent category + rare ones on runs of adjacent rows: re-encoding makes the frequent
+            # category an explicit (long) row list that is intersected with very short ones
+            c = gen.lopsided_cube_case(rng, frequent_explicit=bool(rng.random() < 0.3))
+            ctx.count("class:one_very_frequent_category")
+        else:
+            c = gen.cube_case(rng, min_dims=1, max_dims=3, max_axes=2, max_extent=4, explicit_shape=False,
+                              allow_outside_common=True, n=gen.pick(rng, [1, 2, 3, 5, 8, 17, 40, 64, 150]))
         c["shape"] = tuple(e + 1 for e in c["extents"])
         n = c["dense"][0].shape[0]
         c["n"] = n
